@@ -176,11 +176,17 @@ def c12(ck, tmp):
         adj = g.adjacency()
         seqd = g.seqd()
         text = g.text(shuffle_rng=rng if rng.random() < 0.5 else None, other_records=rng.random() < 0.3)    # S / L lines in any order, H line
+        if it % 5 == 2:
+            # the last line of the file is an S line and the file has no final newline (whatever the quirk stream draws)
+            tl = text.rstrip("\n").split("\n")
+            k = rng.choice([i for i, l in enumerate(tl) if l.startswith("S")])
+            tl.append(tl.pop(k))
+            text = "\n".join(tl)
         tok = tokenize_gfa(text)
         lines, reads, steps_l = [], [], []
         for k in range(rng.randint(4, 14)):
             w = G.walk(rng, g, adj, maxsteps=5)
-            if it % 6 == 0 and k in (0, 1, 2, 3):
+            if it % 6 == 0 and k in (0, 1, 2, 3, 4):
                 w = [(g.segs[0]["id"], rng.choice("+-"))]
             pseq = "".join(seqd[n] if o == "+" else G.rc(seqd[n]) for n, o in w)
             if len(pseq) < 2:
@@ -194,6 +200,8 @@ def c12(ck, tmp):
                 a, b = 10, 10 + 59990          # the read will be longer than the limit, the path slice shorter (net insertions)
             elif it % 6 == 0 and k == 3:
                 a, b = 20, 20 + 60050          # the read will be shorter than the limit, the path slice longer (net deletions)
+            elif it % 6 == 0 and k == 4:
+                a, b = 1000, 1000 + 600        # see below: a long insertion and, 150 bases later, a long deletion
             else:
                 a = rng.randrange(0, len(pseq) - 1)
                 b = rng.randrange(a + 1, min(len(pseq), a + 400) + 1)
@@ -211,6 +219,12 @@ def c12(ck, tmp):
                 # 60 050 path bases, 59 990 read bases (one deletion): must be realigned; 'M'-form input CIGAR
                 q = ref[:30000] + ref[30060:]
                 cg = "30000M60D29990M"
+            elif it % 6 == 0 and k == 4:
+                # the optimal alignment leaves the main diagonal by ~100 and comes back: exact WFA finds it, a pruning
+                # heuristic does not; the input CIGAR is the true (valid) one, so "cost no worse than the input's" applies
+                n_i, n_d = rng.randint(80, 120), rng.randint(80, 120)
+                q = ref[:150] + G.rseq(rng, n_i) + ref[150:300] + ref[300 + n_d:]
+                cg = "150=%dI150=%dD%d=" % (n_i, n_d, len(ref) - 300 - n_d)
             elif boundary:
                 q = list(ref)
                 for pos in rng.sample(range(len(q)), 3):
@@ -291,7 +305,10 @@ def real_runs(ck, prop, tmp, inputs, n):
     import multiprocessing
     import gaftools.cli.realign as R
     rng = ck.rng
-    orig = R.wfa_alignment
+    orig = getattr(R, "wfa_alignment", None)
+    if orig is None:          # the worker function is an internal of the tool: without it no fault can be injected
+        ck.count("worker-function-absent")
+        return
 
     class Watchdog(Exception):
         pass
